@@ -200,6 +200,12 @@ static void incremental_items(void)
               ref_hkdf(A, MSG + 100, kl, MSG + 200, sl, MSG + 300, il, e, 100); if (r1 || r2) hx_fail(A ? "hkdfa-inc" : "hkdf-inc", "expand status %d %d", r1, r2);
               expect(A ? "hkdfa-inc" : "hkdf-inc", o, e, 100, "output", l, kl); t_add(o, 100); }
         }
+        /* phase switches on one XOF object: squeeze, then pad / absorb again (no reference: the transcript is compared across configurations, and the checker builds see the acquire/release pairs) */
+        { union { ascon_xof_state_t x; ascon_xofa_state_t xa; } s;
+          if (A) { ascon_xofa_init(&s.xa); ascon_xofa_absorb(&s.xa, MSG, 5); ascon_xofa_squeeze(&s.xa, o, 11); ascon_xofa_pad(&s.xa); ascon_xofa_absorb(&s.xa, MSG, 9); ascon_xofa_squeeze(&s.xa, o + 11, 20); ascon_xofa_absorb(&s.xa, MSG, 3); ascon_xofa_pad(&s.xa); ascon_xofa_pad(&s.xa); ascon_xofa_squeeze(&s.xa, o + 31, 9); ascon_xofa_free(&s.xa); }
+          else   { ascon_xof_init(&s.x); ascon_xof_absorb(&s.x, MSG, 5); ascon_xof_squeeze(&s.x, o, 11); ascon_xof_pad(&s.x); ascon_xof_absorb(&s.x, MSG, 9); ascon_xof_squeeze(&s.x, o + 11, 20); ascon_xof_absorb(&s.x, MSG, 3); ascon_xof_pad(&s.x); ascon_xof_pad(&s.x); ascon_xof_squeeze(&s.x, o + 31, 9); ascon_xof_free(&s.x); }
+          t_add(o, 40);
+          ascon_prf_state_t ps; ascon_prf_init(&ps, K); ascon_prf_absorb(&ps, MSG, 5); ascon_prf_squeeze(&ps, o, 7); ascon_prf_absorb(&ps, MSG, 40); ascon_prf_squeeze(&ps, o + 7, 20); ascon_prf_free(&ps); t_add(o, 27); }
         t_end(A ? "incremental-a" : "incremental");
     }
     for (int l = 0; l <= 70; l += 7) { ascon_prf_state_t s; int a = l / 2;
